@@ -148,6 +148,31 @@ def rand_live(seed, **kw):
         s += 1
 
 
+def rand_cyc(seed):
+    """G_live ring in which a fast node F (often advancing on a blocking input from a slow node S) feeds the supervisor A without
+    blocking, and S listens to A through a skipped non-blocking edge: A's selections for steps that expect *zero* messages from the
+    bursty F are queued behind incomplete ones, and the next message of F needs A's progress (lost-wakeup shape, DESIGN 5.1-m)."""
+    rnd = random.Random(seed * 7919 + 13)
+    while True:
+        ra, rs, rf = rnd.choice([10, 13, 17, 20, 25]), rnd.choice([5, 8]), rnd.choice([33, 40, 50])
+        small = lambda r: rand_dist(rnd, 0.3 / r, kinds=("det0", "det", "norm"))
+        nodes = [dict(name="n0", rate=ra, delay=small(ra), scheduling=rnd.choice("FP"), advance=False),
+                 dict(name="n1", rate=rs, delay=small(rs), scheduling=rnd.choice("FP"), advance=False),
+                 dict(name="n2", rate=rf, delay=["det", 0.0] if rnd.random() < 0.6 else small(rf), scheduling=rnd.choice("FP"), advance=rnd.random() < 0.7)]
+        cd = lambda: rand_dist(rnd, 0.02, kinds=("det0", "det", "norm"))
+        conns = [dict(out="n0", inp="n1", window=rnd.randint(1, 3), skip=True, blocking=False, jitter=rnd.choice("LB"), delay=cd()),
+                 dict(out="n1", inp="n2", window=rnd.randint(1, 4), skip=False, blocking=True, jitter="L", delay=cd()),
+                 dict(out="n2", inp="n0", window=rnd.randint(1, 4), skip=False, blocking=False, jitter="L", delay=cd())]
+        if rnd.random() < 0.5:  # a bystander that listens to two members of the ring
+            rx = rnd.choice([8, 10, 20])
+            nodes.append(dict(name="n3", rate=rx, delay=small(rx), scheduling=rnd.choice("FP"), advance=False))
+            conns.append(dict(out="n2", inp="n3", window=rnd.randint(1, 4), skip=rnd.random() < 0.3, blocking=False, jitter="L", delay=cd()))
+            conns.append(dict(out="n1", inp="n3", window=rnd.randint(1, 3), skip=False, blocking=False, jitter="L", delay=cd()))
+        spec = dict(seed=seed, nodes=nodes, conns=conns, supervisor="n0")
+        if in_live(spec):
+            return spec
+
+
 def rand_gen(seed, **kw):
     kw = dict(allow_blocking=False, allow_buffer=False, allow_advance=False, allow_phase=False, overrun=False, **kw)
     return rand_spec(seed, **kw)
